@@ -31,10 +31,17 @@ def _convert(v):
     return v
 
 
+def _count_args(v):
+    try:
+        return _convert_args(v)
+    except ValueError:  # Typed text that is not a number.
+        return v
+
+
 def xfunc(*args, func=max, check=is_number, convert=None, default=0,
-          _raise=True):
+          _raise=True, parse=_convert_args):
     _raise and raise_errors(args)
-    it = flatten(map(_convert_args, args), check=check)
+    it = flatten(map(parse, args), check=check)
     default = [] if default is None else [default]
     return func(list(map(convert, it) if convert else it) or default)
 
@@ -63,11 +70,12 @@ def xcorrel(arr1, arr2):
 
 FUNCTIONS['CORREL'] = wrap_func(xcorrel)
 FUNCTIONS['COUNT'] = wrap_func(functools.partial(
-    xfunc, func=len, _raise=False, default=None,
+    xfunc, func=len, _raise=False, default=None, parse=_count_args,
     check=functools.partial(is_number, xl_return=False)
 ))
 FUNCTIONS['COUNTA'] = wrap_func(functools.partial(
-    xfunc, check=is_not_empty, func=len, _raise=False, default=None
+    xfunc, check=is_not_empty, func=len, _raise=False, default=None,
+    parse=_count_args
 ))
 FUNCTIONS['COUNTBLANK'] = wrap_func(functools.partial(
     xfunc, check=lambda x: (x == '' or x is sh.EMPTY), func=len,
